@@ -1880,6 +1880,368 @@ example (orc : Oracles) (pol : OnError) :
         = .error ⟨.error .io, st⟩ ∧ st.out.out = [91, 49, 93, 10] ∧ st.err.out = [] ∧ st.pulled = [7] := by
   cases pol <;> exact ⟨_, rfl, rfl, rfl, rfl⟩
 
+/-! ### `streaming_prefix`: up to a read fault the run is the fault-free run -/
+
+/-- the end of input is only ever seen on an empty stream (true of every reader made by `ofItems`) -/
+def EofEmpty (r : Reader) : Prop := r.eof = true → r.rest = []
+
+theorem eofEmpty_ofItems (items : List RItem) (name : Option Str) : EofEmpty (Reader.ofItems items name) := by
+  intro h; cases h
+
+structure PEofE {α} (m : PM α) : Prop where
+  inv : ∀ r, EofEmpty r → EofEmpty (m r).2
+
+theorem peofe_pure {α} (a : α) : PEofE (pure a : PM α) := ⟨fun _ h => h⟩
+theorem peofe_fail {α} (e : PErr) : PEofE (PM.fail e : PM α) := ⟨fun _ h => h⟩
+theorem peofe_locErr {α} (mk : Loc → PErr) : PEofE (locErr mk : PM α) := ⟨fun _ h => h⟩
+
+theorem peofe_bind {α β} {m : PM α} {f : α → PM β} (hm : PEofE m) (hf : ∀ a, PEofE (f a)) :
+    PEofE (m >>= f) := by
+  constructor
+  intro r h
+  have h1 := hm.inv r h
+  simp only [PM.bind_apply]
+  cases hr : m r with
+  | mk res r1 =>
+    rw [hr] at h1
+    cases res with
+    | error e => exact h1
+    | ok a => exact (hf a).inv r1 h1
+
+theorem next_peofe : PEofE Reader.next := by
+  constructor
+  intro r h
+  cases r with
+  | mk rest cur eof loc pulled =>
+    cases eof with
+    | true => exact h
+    | false =>
+      cases rest with
+      | nil => intro _; rfl
+      | cons it rest => cases it <;> (intro h'; cases h')
+
+theorem peek_peofe : PEofE Reader.peek := by
+  constructor
+  intro r h
+  unfold Reader.peek
+  split
+  · exact h
+  · exact next_peofe.inv r h
+
+macro "peofe_step" : tactic => `(tactic| first
+  | with_reducible exact peofe_pure _
+  | with_reducible exact peofe_fail _
+  | with_reducible exact peofe_locErr _
+  | with_reducible exact next_peofe
+  | with_reducible exact peek_peofe
+  | with_reducible assumption
+  | with_reducible apply peofe_bind
+  | intro _
+  | split)
+
+syntax "peofe" ("[" term,* "]")? : tactic
+macro_rules
+  | `(tactic| peofe) => `(tactic| repeat' peofe_step)
+  | `(tactic| peofe [$ts,*]) =>
+    `(tactic| repeat' (first | peofe_step $[| with_reducible exact $ts]*))
+
+theorem eatWhitespace_peofe (fuel : Nat) : PEofE (eatWhitespace fuel) := by
+  induction fuel with
+  | zero => exact peofe_fail _
+  | succ fuel ih => unfold eatWhitespace; peofe
+
+theorem readDigits_peofe (fuel : Nat) (acc : List Byte) : PEofE (readDigits fuel acc) := by
+  induction fuel generalizing acc with
+  | zero => exact peofe_fail _
+  | succ fuel ih => unfold readDigits; peofe [ih _]
+
+theorem readWordTail_peofe (word : String) (es : List Byte) : PEofE (readWordTail word es) := by
+  induction es with
+  | nil => unfold readWordTail; peofe
+  | cons e es ih => unfold readWordTail; peofe
+
+theorem readHex4_peofe (k acc : Nat) : PEofE (readHex4 k acc) := by
+  induction k generalizing acc with
+  | zero => exact peofe_pure _
+  | succ k ih => unfold readHex4; peofe [ih _]
+
+theorem readStringLoop_peofe (fuel : Nat) (acc : List Byte) : PEofE (readStringLoop fuel acc) := by
+  induction fuel generalizing acc with
+  | zero => exact peofe_fail _
+  | succ fuel ih => unfold readStringLoop; peofe [ih _, readHex4_peofe _ _]
+
+theorem parseToDouble_peofe (t : List Byte) : PEofE (parseToDouble t) := by
+  unfold parseToDouble; peofe
+
+theorem readNumber_peofe (fuel : Nat) : PEofE (readNumber fuel) := by
+  unfold readNumber
+  peofe [readDigits_peofe _ _, parseToDouble_peofe _]
+
+structure ValueEofE (fuel : Nat) : Prop where
+  value : PEofE (nextValue fuel)
+  array : PEofE (readArray fuel)
+  arrayLoop : ∀ acc, PEofE (readArrayLoop fuel acc)
+  object : PEofE (readObject fuel)
+  objectLoop : ∀ acc, PEofE (readObjectLoop fuel acc)
+
+theorem valueEofE (fuel : Nat) : ValueEofE fuel := by
+  induction fuel with
+  | zero =>
+    refine ⟨?_, ?_, fun _ => ?_, ?_, fun _ => ?_⟩
+    · unfold nextValue; exact peofe_fail _
+    · unfold readArray; exact peofe_fail _
+    · unfold readArrayLoop; exact peofe_fail _
+    · unfold readObject; exact peofe_fail _
+    · unfold readObjectLoop; exact peofe_fail _
+  | succ fuel ih =>
+    refine ⟨?_, ?_, fun _ => ?_, ?_, fun _ => ?_⟩
+    · unfold nextValue
+      peofe [eatWhitespace_peofe _, readWordTail_peofe _ _, readStringLoop_peofe _ _,
+        readNumber_peofe _, ih.array, ih.object]
+    · unfold readArray
+      peofe [eatWhitespace_peofe _, ih.arrayLoop _]
+    · unfold readArrayLoop
+      peofe [eatWhitespace_peofe _, ih.arrayLoop _, ih.value]
+    · unfold readObject
+      peofe [eatWhitespace_peofe _, ih.objectLoop _]
+    · unfold readObjectLoop
+      peofe [eatWhitespace_peofe _, ih.objectLoop _, ih.value]
+
+theorem nextJson_eofEmpty {r : Reader} (h : EofEmpty r) : EofEmpty r.nextJson.2 := (valueEofE _).value.inv r h
+
+section Streaming
+variable (orc : Oracles) (c : Cfg) (p : Pipeline)
+
+/-- an iteration over `a.r` is the same iteration over any reader that agrees with it on the positions examined -/
+theorem iter_sim {N : Nat} {a b : Conf} (h : Iter orc c p a b) (r₂ : Reader) (hag : AgreeTo N a.r r₂)
+    (hw : WF a.r) (hpos : pos b.r ≤ N) :
+    Iter orc c p ⟨r₂, a.inFile, a.s⟩ ⟨r₂.nextJson.2, b.inFile, b.s⟩ ∧ AgreeTo N b.r r₂.nextJson.2 := by
+  have hb := (Iter.props orc c p h).1
+  rw [hb] at hpos
+  obtain ⟨e1, a1⟩ := nextJson_local hag hw hpos
+  rw [hb]
+  refine ⟨?_, a1⟩
+  rcases hn₂ : r₂.nextJson with ⟨res₂, r₂'⟩
+  rw [hn₂] at e1 a1
+  dsimp only at e1 a1
+  cases h with
+  | skip hn hk =>
+    rw [hn] at e1 a1; dsimp only at e1; subst e1
+    exact Iter.skip (k := ⟨r₂, a.inFile, a.s⟩) hn₂ hk
+  | row hn hk hp =>
+    rw [hn] at e1 a1; dsimp only at e1 a1; subst e1
+    refine Iter.row (k := ⟨r₂, a.inFile, a.s⟩) hn₂ hk ?_
+    simp only [rowCtx] at hp ⊢
+    rw [← hag.loc, ← a1.loc]
+    exact hp
+  | ignore hn hr hpol =>
+    rw [hn] at e1; dsimp only at e1; subst e1
+    exact Iter.ignore (k := ⟨r₂, a.inFile, a.s⟩) hn₂ hr hpol
+  | stdout hn hr hpol hf =>
+    rw [hn] at e1; dsimp only at e1; subst e1
+    exact Iter.stdout (k := ⟨r₂, a.inFile, a.s⟩) hn₂ hr hpol hf
+  | stderr hn hr hpol hf =>
+    rw [hn] at e1; dsimp only at e1; subst e1
+    exact Iter.stderr (k := ⟨r₂, a.inFile, a.s⟩) hn₂ hr hpol hf
+
+/-- along iterations: positions only grow, well-formedness and `EofEmpty` are kept, and every iteration consumes -/
+theorem reachN_reader {n : Nat} {a b : Conf} (h : ReachN orc c p n a b) (hw : WF a.r) :
+    pos a.r ≤ pos b.r ∧ WF b.r ∧ (EofEmpty a.r → EofEmpty b.r) ∧ μ b.r + n ≤ μ a.r := by
+  induction h with
+  | refl k => exact ⟨Nat.le_refl _, hw, id, Nat.le_refl _⟩
+  | @step n a b d hi _ ih =>
+    obtain ⟨e, hne, _⟩ := Iter.props orc c p hi
+    have hw' : WF b.r := by rw [e]; exact nextJson_wf _ hw
+    obtain ⟨i1, i2, i3, i4⟩ := ih hw'
+    have hprog : μ b.r < μ a.r := by
+      rw [e]
+      refine (nextJson_progress a.r hw (res := a.r.nextJson.1) (r' := a.r.nextJson.2) rfl ?_).2
+      cases hi with
+      | skip hn hk => rw [hn]; intro h; cases h
+      | row hn hk hp => rw [hn]; intro h; cases h
+      | ignore hn hr hpol => rw [hn]; intro h; cases h
+      | stdout hn hr hpol hf => rw [hn]; intro h; cases h
+      | stderr hn hr hpol hf => rw [hn]; intro h; cases h
+    refine ⟨Nat.le_trans (by rw [e]; exact nextJson_pos_mono _) i1, i2, fun h => i3 (by rw [e]; exact nextJson_eofEmpty h),
+      by omega⟩
+
+theorem reachN_sim {N n : Nat} {a b : Conf} (h : ReachN orc c p n a b) (r₂ : Reader) (hag : AgreeTo N a.r r₂)
+    (hw : WF a.r) (hpos : pos b.r ≤ N) :
+    ∃ r₂', ReachN orc c p n ⟨r₂, a.inFile, a.s⟩ ⟨r₂', b.inFile, b.s⟩ ∧ AgreeTo N b.r r₂' := by
+  induction h generalizing r₂ with
+  | refl k => exact ⟨r₂, .refl _, hag⟩
+  | @step n a b d hi hr ih =>
+    have hw' : WF b.r := by rw [(Iter.props orc c p hi).1]; exact nextJson_wf _ hw
+    have hpb := (reachN_reader orc c p hr hw').1
+    obtain ⟨hi₂, ag₂⟩ := iter_sim orc c p hi r₂ hag hw (Nat.le_trans hpb hpos)
+    obtain ⟨r₂', hr₂, ag'⟩ := ih _ ag₂ hw' hpos
+    exact ⟨r₂', .step hi₂ hr₂, ag'⟩
+
+/-- `streaming_prefix`, at the level of the loop.  The source has a read fault after the items `pre`, and the run
+pulled it (its `pulled` record says so).  Replace the fault and everything after it by ANY continuation `cont`:
+the loop over the repaired source goes through the same states up to that point, hence (the logs only grow)
+stdout and stderr of the faulty run are prefixes of stdout and stderr of the repaired run.  No hypothesis on the
+chain is needed: with a whole-input stage the faulty run just has written less. -/
+theorem streaming_prefix (fuel fuel₂ : Nat) (k : Conf) (pre post cont : List RItem)
+    (hrest : k.r.rest = pre ++ RItem.err :: post) (hw : WF k.r) (hee : EofEmpty k.r) (e : RunEnd)
+    (h : readLoop orc c p fuel k.r k.inFile k.s = .error e)
+    (hp : e.st.pulled = k.s.pulled ++ [k.r.pulled + pre.length + 1]) (hf : pre.length ≤ fuel₂) :
+    e.result = .error .io ∧
+    e.st.out.out <+: (endSt (readLoop orc c p fuel₂ { k.r with rest := pre ++ cont } k.inFile k.s)).out.out ∧
+    e.st.err.out <+: (endSt (readLoop orc c p fuel₂ { k.r with rest := pre ++ cont } k.inFile k.s)).err.out := by
+  have hs : (RItem.err :: post) <:+ k.r.rest := ⟨pre, hrest.symm⟩
+  have hlen : k.r.rest.length - post.length = pre.length + 1 := by rw [hrest]; simp; omega
+  obtain ⟨n, k', hr, hs', _, _, h4⟩ := fault_trace orc c p fuel k post hs
+  have hpulled : e.st.pulled = k.s.pulled ++ [k.r.pulled + (k.r.rest.length - post.length)] := by
+    rw [hlen, hp, Nat.add_assoc]
+  rcases h4 with ⟨_, _, _, h4⟩ | ⟨_, _, _, h4, _⟩ | ⟨e', h4, h5⟩
+  · rw [h4] at h
+    cases h
+    refine ⟨rfl, ?_⟩
+    obtain ⟨hpos, hw', hee', hμ⟩ := reachN_reader orc c p hr hw
+    obtain ⟨_, hcnt, _, _, _⟩ := reachN_props orc c p hr
+    have hne : k'.r.eof = false := by
+      cases he : k'.r.eof with
+      | false => rfl
+      | true =>
+        have := hee' hee he
+        rw [this] at hs'
+        have := hs'.length_le
+        simp at this
+    have hke : k.r.eof = false := by
+      cases he : k.r.eof with
+      | false => rfl
+      | true => have := hee he; rw [hrest] at this; simp at this
+    have hl' := hs'.length_le
+    simp only [List.length_cons] at hl'
+    rw [hrest] at hcnt
+    simp only [List.length_append, List.length_cons] at hcnt
+    have hposk' : pos k'.r ≤ pos k.r + pre.length := by
+      rw [pos_of_not_eof hne, pos_of_not_eof hke]; omega
+    have hag : AgreeTo (pos k.r + pre.length) k.r { k.r with rest := pre ++ cont } := by
+      refine ⟨rfl, rfl, rfl, rfl, ?_⟩
+      rw [Nat.add_sub_cancel_left, hrest]
+      simp
+    obtain ⟨r₂', hr₂, _⟩ := reachN_sim orc c p hr _ hag hw hposk'
+    -- the number of iterations is at most `pre.length`
+    have hn : n ≤ pre.length := by
+      have h1 : μ k.r = pre.length + 1 + post.length + 1 := by
+        simp [μ, hke, hrest]; omega
+      have h2 : post.length + 1 + 1 ≤ μ k'.r := by
+        simp only [μ, hne, Bool.false_eq_true, if_false]; omega
+      omega
+    obtain ⟨f, rfl⟩ : ∃ f, fuel₂ = f + n := ⟨fuel₂ - n, by omega⟩
+    have := reachN_readLoop orc c p hr₂ f
+    dsimp only at this
+    rw [this]
+    exact out_monotone orc c p f r₂' k'.inFile k'.s
+  · rw [h4] at h; cases h
+  · rw [h4] at h
+    cases h
+    rcases h5 with h5 | ⟨m, h5, hm⟩
+    · rw [h5] at hpulled
+      have := congrArg List.length hpulled
+      simp at this
+    · rw [h5] at hpulled
+      have := List.append_cancel_left hpulled
+      simp only [List.cons.injEq, and_true] at this
+      omega
+
+/-- the end of `run`, once the pipeline is built and started and the sources are read -/
+def finishRun (x : Except RunEnd RunState) : RunResult :=
+  match x with
+  | .error e => e.toResult
+  | .ok s =>
+    match complete orc p.sink p.sinkLen p.cfgs s.sts s.out with
+    | .error f => { result := .error f.kind, stdout := f.w.out, stderr := s.err.out, pulled := s.pulled }
+    | .ok w => { result := .ok (), stdout := w.out, stderr := s.err.out, pulled := s.pulled }
+
+theorem run_eq_finishRun (sources : List Source) (wOut wErr w0 : Writer)
+    (hb : build orc c = .ok p) (hs : sinkStart p.sink p.titles wOut = .ok w0) :
+    run orc c sources wOut wErr
+      = finishRun orc p (readSources orc c p sources { sts := p.sts, out := w0, err := wErr }) := by
+  simp only [run, hb, hs]; rfl
+
+theorem finishRun_ext (x : Except RunEnd RunState) :
+    (endStS x).out.out <+: (finishRun orc p x).stdout ∧ (endStS x).err.out <+: (finishRun orc p x).stderr := by
+  cases x with
+  | error e => exact ⟨List.prefix_refl _, List.prefix_refl _⟩
+  | ok s =>
+    have h2 := complete_ext orc p.sink p.sinkLen p.cfgs s.sts s.out
+    simp only [finishRun, endStS]
+    cases hc : complete orc p.sink p.sinkLen p.cfgs s.sts s.out with
+    | error f => rw [hc] at h2; exact ⟨h2, List.prefix_refl _⟩
+    | ok w => rw [hc] at h2; exact ⟨h2, List.prefix_refl _⟩
+
+theorem readSources_extends_first_loop (src : Source) (rest : List Source) (s : RunState) :
+    (endSt (readLoop orc c p (src.items.length + 2) (Reader.ofItems src.items src.name) 0 s)).out.out
+        <+: (endStS (readSources orc c p (src :: rest) s)).out.out ∧
+    (endSt (readLoop orc c p (src.items.length + 2) (Reader.ofItems src.items src.name) 0 s)).err.out
+        <+: (endStS (readSources orc c p (src :: rest) s)).err.out := by
+  unfold readSources
+  dsimp only
+  split
+  · rename_i e heq
+    rw [heq]; exact ⟨List.prefix_refl _, List.prefix_refl _⟩
+  · rename_i s' r' d heq
+    rw [heq]
+    split
+    · exact ⟨List.prefix_refl _, List.prefix_refl _⟩
+    · exact readSources_out_monotone orc c p rest { s' with pulled := s'.pulled ++ [r'.pulled] }
+
+/-- what the first source's loop leaves on the logs is a prefix of what the run leaves -/
+theorem run_extends_first_loop (src : Source) (rest : List Source) (wOut wErr w0 : Writer)
+    (hb : build orc c = .ok p) (hs : sinkStart p.sink p.titles wOut = .ok w0) :
+    (endSt (readLoop orc c p (src.items.length + 2) (Reader.ofItems src.items src.name) 0
+        { sts := p.sts, out := w0, err := wErr })).out.out <+: (run orc c (src :: rest) wOut wErr).stdout ∧
+    (endSt (readLoop orc c p (src.items.length + 2) (Reader.ofItems src.items src.name) 0
+        { sts := p.sts, out := w0, err := wErr })).err.out <+: (run orc c (src :: rest) wOut wErr).stderr := by
+  rw [run_eq_finishRun orc c p _ wOut wErr w0 hb hs]
+  have h1 := readSources_extends_first_loop orc c p src rest { sts := p.sts, out := w0, err := wErr }
+  have h2 := finishRun_ext orc p (readSources orc c p (src :: rest) { sts := p.sts, out := w0, err := wErr })
+  exact ⟨h1.1.trans h2.1, h1.2.trans h2.2⟩
+
+/-- `streaming_prefix`, at the level of a run: a read fault in the first source, reached by the run.  The run ends
+with the I/O error, and its stdout / stderr are prefixes of those of the run on the repaired source (the fault
+and what follows replaced by any `cont`), whatever sources follow. -/
+theorem streaming_prefix_run (name : Option Str) (pre post cont : List RItem) (rest rest₂ : List Source)
+    (wOut wErr w0 : Writer) (e : RunEnd)
+    (hb : build orc c = .ok p) (hs : sinkStart p.sink p.titles wOut = .ok w0)
+    (h : readLoop orc c p ((pre ++ RItem.err :: post).length + 2) (Reader.ofItems (pre ++ RItem.err :: post) name) 0
+          { sts := p.sts, out := w0, err := wErr } = .error e)
+    (hp : e.st.pulled = [pre.length + 1]) :
+    (run orc c (⟨name, pre ++ RItem.err :: post⟩ :: rest) wOut wErr).result = .error .io ∧
+    (run orc c (⟨name, pre ++ RItem.err :: post⟩ :: rest) wOut wErr).stdout
+      <+: (run orc c (⟨name, pre ++ cont⟩ :: rest₂) wOut wErr).stdout ∧
+    (run orc c (⟨name, pre ++ RItem.err :: post⟩ :: rest) wOut wErr).stderr
+      <+: (run orc c (⟨name, pre ++ cont⟩ :: rest₂) wOut wErr).stderr := by
+  have hsp := streaming_prefix orc c p _ ((pre ++ cont).length + 2)
+    ⟨Reader.ofItems (pre ++ RItem.err :: post) name, 0, { sts := p.sts, out := w0, err := wErr }⟩ pre post cont rfl
+    (wf_ofItems _ _) (eofEmpty_ofItems _ _) e h
+    (by rw [hp]; show [pre.length + 1] = [] ++ [0 + pre.length + 1]; simp) (by simp; omega)
+  have hrun : run orc c (⟨name, pre ++ RItem.err :: post⟩ :: rest) wOut wErr = e.toResult := by
+    simp only [run, hb, hs, readSources, h]
+  have hext := run_extends_first_loop orc c p ⟨name, pre ++ cont⟩ rest₂ wOut wErr w0 hb hs
+  rw [hrun]
+  exact ⟨hsp.1, hsp.2.1.trans hext.1, hsp.2.2.trans hext.2⟩
+
+end Streaming
+
+/-- non-vacuity of `streaming_prefix_run`: `[1] [2`, a fault, `]` against the repaired `[1] [2]` — stdout `[1]⏎` of
+the faulty run is a prefix of stdout `[1]⏎[2]⏎` of the repaired one -/
+example (orc : Oracles) :
+    (run orc {} [⟨none, faulty⟩] {} {}).result = .error .io ∧
+    (run orc {} [⟨none, faulty⟩] {} {}).stdout
+      <+: (run orc {} [⟨none, cleanInput [91, 49, 93, 32, 91, 50] ++ cleanInput [93]⟩] {} {}).stdout := by
+  have h := streaming_prefix_run orc {} plain none (cleanInput [91, 49, 93, 32, 91, 50]) [RItem.byte 93]
+    (cleanInput [93]) [] [] {} {} {} _ (build_plain orc .ignore) rfl rfl rfl
+  exact ⟨h.1, h.2.1⟩
+
+/-- (with the empty oracle table) -/
+example : (run {} {} [⟨none, faulty⟩] {} {}).stdout = [91, 49, 93, 10]
+    ∧ (run {} {} [⟨none, cleanInput [91, 49, 93, 32, 91, 50] ++ cleanInput [93]⟩] {} {}).stdout
+        = [91, 49, 93, 10, 91, 50, 93, 10] := by decide +kernel
+
 /-! ### 4. (C17) positions are exact -/
 
 /-- the bytes among a list of items (a read fault carries no byte and does not move the position) -/
@@ -2287,5 +2649,31 @@ example : (Reader.nextJson (Reader.ofBytes [91, 49, 93, 10, 91, 50, 93])).2.loc.
   have h := location_after_bytes (bs := [91, 49, 93, 10]) (tail := [91, 50, 93]) (name := none)
     (nextJson_locInv (locInv_ofItems _ _)) (by decide)
   exact ⟨h.1, h.2.1⟩
+
+/-
+#print axioms nextJson_local              -- [propext, Classical.choice, Quot.sound]
+#print axioms nextJson_prefix_locality
+#print axioms nextJson_agree_pulled
+#print axioms nextValue_fuel_indep
+#print axioms nextJson_pulled_counts
+#print axioms lookahead_bound
+#print axioms nextJson_lookahead_last
+#print axioms readLoop_local
+#print axioms take_stops
+#print axioms take_stops_run
+#print axioms readLoop_trace
+#print axioms out_monotone
+#print axioms run_out_monotone
+#print axioms read_error_is_fatal_run
+#print axioms read_error_reached_is_fatal
+#print axioms streaming_prefix
+#print axioms streaming_prefix_run
+#print axioms location_is_lineCol
+#print axioms location_after_bytes
+#print axioms ranges_tile
+#print axioms ranges_tile_source
+#print axioms range_contains_text_general
+#print axioms range_contains_text
+-/
 
 end Jawk.Loc
